@@ -1,5 +1,6 @@
 // C12 harness: copies are independent, read-only inputs stay unchanged.
 // Streams (see coq/C12/Corr.v): S scalars / dense vectors of magic scalars, M dense matrices,
+// J (round 3, coq/C12/CorrJ.v) entry points of the Real containers on operands holding jets at order 2,
 // V sparse vectors, E algorithm entry points and distribution constructors, H (coq/C12/CorrH.v) HISTORIES:
 // sequences of calls of one entry point sharing a caller-owned InSitu struct, and of one estimator.
 //   c12 --seed S --n N --out DIR [--tier quick|thorough]        correspondence cases
@@ -17,7 +18,7 @@ import (
 	. "adharness/common"
 )
 
-const hdr = "From Coq Require Import ZArith List Bool Floats.\nFrom ADV Require Import C01.Model C12.ModelS C12.Corr.\nImport ListNotations.\n"
+const hdr = "From Coq Require Import ZArith List Bool Floats.\nFrom ADV Require Import C01.Model C12.ModelS C12.Corr C12.ModelId C12.CorrI.\nImport ListNotations.\n"
 const hdrZ = "From Coq Require Import ZArith List Bool.\nFrom ADV Require Import C10.Model C11.Model C12.ModelM C12.CorrZ.\nImport ListNotations.\nOpen Scope Z_scope.\n"
 
 type Finding struct {
@@ -46,9 +47,9 @@ func main() {
 	nS, nM, nV, nE := o.N, o.N, o.N/2, o.N
 	// ---- S
 	{
-		w := NewCaseWriter(o.Out, "scases", hdr, "smism", 12)
-		w.Type = "scase"
-		w.Rule = "S: history with a Clone/As-conversion followed by >= 20 operations of which at least one writes an element of the source or of the copy"
+		w := NewCaseWriter(o.Out, "scases", hdr, "smism2", 12)
+		w.Type = "scase2"
+		w.Rule = "S: history with a copy (Clone / As-conversion / generic Set / typed SET, 7 of 10 at order 2 with N >= 2 and off-diagonal Hessian entries) followed by >= 20 operations (typed and generic spellings, in-place arithmetic on the copy); slice identities of every register reported after every operation"
 		r := rng.Split()
 		for i := 0; i < nS; i++ {
 			obs, hist := genSHistory(r.Split(), 20+r.Intn(8))
@@ -108,6 +109,8 @@ func main() {
 			Die("flush: %v", err)
 		}
 	}
+	// ---- J (round 3): typed containers of jets
+	runJetStream(o, jRng(o.Seed), o.N)
 	// ---- E
 	runEntryStream(o, rng.Split(), nE)
 	// ---- H
